@@ -291,6 +291,8 @@ PROPS["C05"] = dict(
         H(M05, "c05_add_one_slot", tier="experimental", mem=30, bounds="1 slot + add at symbolic deadline 0..6 (before/equal/after)"),
         H(M05, "c05_drop_unregisters", bounds="add at symbolic deadline, resolve-or-not, drop handle"),
         H(M05, "c05_reset_moves_registration", tier="experimental", mem=30, bounds="add at symbolic deadline 1..6, reset to symbolic 1..6"),
+        H(M05, "c05_sleep_reset_later", tier="experimental", mem=30, bounds="Sleep(deadline 3) polled at symbolic now in {0,1}, reset to 6 (concrete deadlines keep queue positions concrete), polled again"),
+        H(M05, "c05_sleep_reset_earlier", tier="experimental", mem=30, bounds="Sleep(deadline 6) polled at now in {0,1}, reset to 3, polled again"),
         H(M05, "c05_sleep_first_poll", bounds="Sleep symbolic deadline<=6, now<=4, first poll"),
         H(M05, "c05_bump_exactly_due", tier="experimental", mem=30, bounds="2 slots (front one live or emptied), symbolic deadlines, symbolic now<=7ns"),
         H(M05, "c05_add_sorted_once", tier="experimental", mem=30, bounds="2 slots + add at symbolic deadline 0..7 (before/equal/between/after)"),
